@@ -2,6 +2,7 @@
 PROP = {'engine': 'c13',
  'race': False,
  'level': 'exploration',
+ 'technique': 'runtime monitoring: the real schedule functions executed over an exhaustively enumerated grid against a reference rotation written from the statement',
  'exhaustive': True,
  'crash_is_violation': True,
  'rule': 'every point of the grid deputies-per-term(1..9 quick, 1..17 thorough; equal, shrinking, growing and rotated membership across 3 '
